@@ -6,7 +6,7 @@ CONSTANTS
   InitKeys <- TrInit
   N0 <- TrN0
   DCAP = 16
-  MaxNodes = 80
+  MaxNodes <- TrMaxNodes
   MaxTabs = 8
   STRIDE = 16
   MAXRES = 999
